@@ -40,6 +40,8 @@ def scraped_content(T_files, src):
         return b[:-1] if (src[2] and b) else b + b'\x00'
     if kind == 'u':
         return L.content(['r', src[1], src[2]])
+    if kind == 'x':          # unknown file with literal content
+        return bytes.fromhex(src[1])
     raise HarnessError('bad scraped source %r' % (src,))
 
 
@@ -214,6 +216,13 @@ def corpus():
            {'root': 'T', 'files': base, 'scraped': [['d1', ['d', 2, 65535, 7], None], ['d2', ['d', 5, 131071, 0], None], ['d3', ['d', 3, 0, 0], None]]},
            {'root': 'T', 'stream': 'dups', 'files': [f('one', ['h', 'aa'], 1_500_000_000), f('two/one', ['h', 'aa'], 1_400_000_000), f('three', ['h', 'bb'], 1_300_000_000)],
             'scraped': [['q', ['o', 0], None], ['r', ['o', 2], None]]}]
+    # an unknown file that collides on MD5 (the public Wang et al. pair) with a recorded one but differs in SHA-1 and content:
+    # a match needs BOTH digests; (a) the genuine file is lost: nothing may be recreated for it, (b) both are present, the
+    # collider walked last: the genuine bytes must come out
+    m1, m2 = 'd131dd02c5e6eec4693d9a0698aff95c2fcab58712467eab4004583eb8fb7f8955ad340609f4b30283e488832571415a085125e8f7cdc99fd91dbdf280373c5bd8823e3156348f5bae6dacd436c919c6dd53e2b487da03fd02396306d248cda0e99f33420f577ee8ce54b67080a80d1ec69821bcb6a8839396f9652b6ff72a70', 'd131dd02c5e6eec4693d9a0698aff95c2fcab50712467eab4004583eb8fb7f8955ad340609f4b30283e4888325f1415a085125e8f7cdc99fd91dbd7280373c5bd8823e3156348f5bae6dacd436c919c6dd53e23487da03fd02396306d248cda0e99f33420f577ee8ce54b67080280d1ec69821bcb6a8839396f965ab6ff72a70'
+    coll = [f('keys/container.bin', ['h', m1], 1_450_000_000), f('notes.txt', ['r', 7, 40], 1_350_000_000)]
+    out.append({'root': 'T', 'files': coll, 'scraped': [['zz/unknown.bin', ['x', m2], None], ['a/notes', ['o', 1], None]]})
+    out.append({'root': 'T', 'files': coll, 'scraped': [['a/genuine', ['o', 0], None], ['zz/unknown.bin', ['x', m2], None], ['b/notes', ['o', 1], None]]})
     return out
 
 
@@ -225,7 +234,7 @@ def account(ctx, case, r):
     ctx.count('unknown-or-damaged=%s' % (r['extras'] if r['extras'] < 3 else '3+'))
     ctx.count('all contents present' if r['recovered'] == r['recorded'] else 'some content lost')
     for _, src, _ in case['scraped']:
-        ctx.count('scraped-kind=' + {'o': 'original', 'd': 'bit-flipped', 't': 'truncated/extended', 'u': 'unknown'}[src[0]])
+        ctx.count('scraped-kind=' + {'o': 'original', 'd': 'bit-flipped', 't': 'truncated/extended', 'u': 'unknown', 'x': 'unknown-md5-collision'}[src[0]])
     if case['scraped'] and (r['extras'] or [s[0] for s in case['scraped']] != [f[0] for f in case['files']]):
         ctx.nontriv(json.dumps(case, sort_keys=True))
     if not r['agree']:
